@@ -70,6 +70,45 @@ pub struct RunOut {
 }
 
 impl RunOut {
+    pub fn to_json(&self) -> J {
+        let mut c = J::obj();
+        for (k, v) in &self.counters {
+            c.put(k.clone(), J::uint(*v));
+        }
+        J::obj()
+            .set("violations", J::Arr(self.violations.iter().map(|v| v.to_json()).collect()))
+            .set("hash", J::str(format!("{:016x}", self.hash)))
+            .set("nontrivial", J::Bool(self.nontrivial))
+            .set("sim_steps", J::uint(self.sim_steps))
+            .set("counters", c)
+            .set("sample", self.sample.clone().unwrap_or(J::Null))
+    }
+    pub fn from_json(j: &J) -> Result<RunOut, String> {
+        let mut out = RunOut::default();
+        for v in j.get("violations").and_then(|a| a.as_arr()).ok_or("runout.violations")? {
+            let mut viol = Violation::new(
+                v.get("class").and_then(|x| x.as_str()).unwrap_or(""),
+                v.get("step").and_then(|x| x.as_u64()).unwrap_or(0),
+                v.get("detail").and_then(|x| x.as_str()).unwrap_or(""),
+            );
+            if let Some(J::Obj(m)) = v.get("signature") {
+                for (k, val) in m {
+                    viol.signature.push((k.clone(), val.as_str().unwrap_or("").to_string()));
+                }
+            }
+            out.violations.push(viol);
+        }
+        out.hash = j.get("hash").and_then(|x| x.as_str()).and_then(|h| u64::from_str_radix(h, 16).ok()).ok_or("runout.hash")?;
+        out.nontrivial = j.get("nontrivial").and_then(|x| x.as_bool()).unwrap_or(false);
+        out.sim_steps = j.get("sim_steps").and_then(|x| x.as_u64()).unwrap_or(0);
+        if let Some(J::Obj(m)) = j.get("counters") {
+            for (k, v) in m {
+                out.counters.insert(k.clone(), v.as_u64().unwrap_or(0));
+            }
+        }
+        out.sample = j.get("sample").filter(|s| !s.is_null()).cloned();
+        Ok(out)
+    }
     pub fn count(&mut self, key: &str, n: u64) {
         if n > 0 {
             *self.counters.entry(key.to_string()).or_insert(0) += n;
@@ -108,6 +147,18 @@ pub trait Check: Sync {
     fn components_real(&self) -> Vec<&'static str>;
     fn components_stub(&self) -> Vec<&'static str>;
     fn assumptions(&self) -> Vec<String>;
+    /// Execute every scenario in a fresh child process (the scenario then sees process-global
+    /// state - statics, caches, thread-locals - exactly as a replay of its file does).
+    fn isolate(&self) -> bool {
+        false
+    }
+    /// For properties that *are* about determinism (C09): if the same scenario gives different
+    /// outcomes in two fresh processes, that is reported as a violation of its own class
+    /// ("differs-between-fresh-processes", replayed by running the scenario in two fresh processes)
+    /// instead of as a harness error.
+    fn nondeterminism_is_violation(&self) -> bool {
+        false
+    }
     /// probes that should be non-zero in a healthy run (coverage warnings otherwise)
     fn expected_probes(&self) -> Vec<&'static str> {
         vec![]
@@ -169,6 +220,7 @@ pub struct Options {
     pub replay: Option<String>,
     pub runs_override: Option<u64>,
     pub no_respawn: bool,
+    pub exec_scenario: Option<String>,
 }
 
 pub fn parse_options(args: &[String]) -> Result<(String, Options), String> {
@@ -186,6 +238,7 @@ pub fn parse_options(args: &[String]) -> Result<(String, Options), String> {
         replay: None,
         runs_override: std::env::var("VERIF_RUNS").ok().and_then(|s| s.parse().ok()),
         no_respawn: false,
+        exec_scenario: None,
     };
     let mut i = 1;
     while i < args.len() {
@@ -211,6 +264,10 @@ pub fn parse_options(args: &[String]) -> Result<(String, Options), String> {
                 o.runs_override = Some(args.get(i).and_then(|s| s.parse().ok()).ok_or("bad runs")?);
             }
             "--no-respawn" => o.no_respawn = true,
+            "--exec-scenario" => {
+                i += 1;
+                o.exec_scenario = Some(args.get(i).cloned().ok_or("missing scenario path")?);
+            }
             other => return Err(format!("unknown argument {}", other)),
         }
         i += 1;
@@ -250,6 +307,27 @@ pub fn replay(check: &dyn Check, path: &str) -> i32 {
     let want_hash = j.get("history_hash").and_then(|x| x.as_str()).unwrap_or("").to_string();
     println!("REPLAY property={} file={} seed={}", check.id(), path,
         j.get("seed").and_then(|s| s.as_u64()).unwrap_or(0));
+    if want_class == NONDET_CLASS {
+        let dir = std::env::var("VERIF_DIR").unwrap_or_else(|_| "/verif".to_string());
+        let a = execute_isolated(check, &dir, &scenario);
+        let b = execute_isolated(check, &dir, &scenario);
+        return match (a, b) {
+            (Ok(a), Ok(b)) => {
+                if a.hash != b.hash {
+                    println!("REPRODUCED class={} two fresh processes gave outcome hashes {} and {}", NONDET_CLASS, hash_hex(a.hash), hash_hex(b.hash));
+                    println!("VIOLATION property={} replay={}", check.id(), path);
+                    1
+                } else {
+                    println!("NOT-REPRODUCED two fresh processes agree on this tree");
+                    0
+                }
+            }
+            (Err(e), _) | (_, Err(e)) => {
+                eprintln!("HARNESS-ERROR {}", e);
+                2
+            }
+        };
+    }
     match check.execute(&scenario) {
         Err(e) => {
             eprintln!("HARNESS-ERROR {}", e);
@@ -290,9 +368,59 @@ struct Slot {
     out: Result<RunOut, String>,
 }
 
+static CHILD_COUNTER: AtomicU64 = AtomicU64::new(0);
+pub const NONDET_CLASS: &str = "differs-between-fresh-processes";
+
+/// run one scenario in a fresh child process of this binary
+pub fn execute_isolated(check: &dyn Check, verif_dir: &str, scenario: &J) -> Result<RunOut, String> {
+    let dir = format!("{}/sim/scratch", verif_dir);
+    let _ = std::fs::create_dir_all(&dir);
+    let path = format!("{}/scn-{}-{}.json", dir, std::process::id(), CHILD_COUNTER.fetch_add(1, Ordering::SeqCst));
+    std::fs::write(&path, scenario.to_string()).map_err(|e| format!("write scenario: {}", e))?;
+    let exe = std::env::current_exe().map_err(|e| e.to_string())?;
+    let outp = std::process::Command::new(exe).arg(check.id()).arg("--exec-scenario").arg(&path).output();
+    let _ = std::fs::remove_file(&path);
+    let outp = outp.map_err(|e| format!("spawn child: {}", e))?;
+    let text = String::from_utf8_lossy(&outp.stdout).to_string();
+    let line = text.lines().rev().find(|l| l.starts_with("RUNOUT ")).ok_or_else(|| {
+        format!(
+            "child produced no result (exit {:?}): {}",
+            outp.status.code(),
+            String::from_utf8_lossy(&outp.stderr).lines().rev().take(3).collect::<Vec<_>>().join(" | ")
+        )
+    })?;
+    let j = json::parse(&line["RUNOUT ".len()..])?;
+    if let Some(e) = j.get("error").and_then(|x| x.as_str()) {
+        return Err(e.to_string());
+    }
+    RunOut::from_json(&j)
+}
+
+fn exec_dispatch(check: &dyn Check, verif_dir: &str, scenario: &J) -> Result<RunOut, String> {
+    if check.isolate() {
+        execute_isolated(check, verif_dir, scenario)
+    } else {
+        check.execute(scenario)
+    }
+}
+
 pub fn run_check(check: &dyn Check, opts: &Options) -> i32 {
     if let Some(path) = &opts.replay {
         return replay(check, path);
+    }
+    if let Some(path) = &opts.exec_scenario {
+        // child side of execute_isolated
+        let res = std::fs::read_to_string(path).map_err(|e| e.to_string()).and_then(|t| json::parse(&t)).and_then(|j| {
+            match std::panic::catch_unwind(std::panic::AssertUnwindSafe(|| check.execute(&j))) {
+                Ok(r) => r,
+                Err(_) => Err("harness panicked while executing a scenario".to_string()),
+            }
+        });
+        match res {
+            Ok(out) => println!("RUNOUT {}", out.to_json().to_string()),
+            Err(e) => println!("RUNOUT {}", J::obj().set("error", J::str(e)).to_string()),
+        }
+        return 0;
     }
     let id = check.id();
     let t0 = Instant::now();
@@ -324,7 +452,7 @@ pub fn run_check(check: &dyn Check, opts: &Options) -> i32 {
                 let mut rng = Rng::new(derive_seed(opts.seed, id, i));
                 let scenario = check.generate(&mut rng, opts.tier, i);
                 // a panic inside the harness itself is a harness error (exit 2), never a verdict
-                let out = match std::panic::catch_unwind(std::panic::AssertUnwindSafe(|| check.execute(&scenario))) {
+                let out = match std::panic::catch_unwind(std::panic::AssertUnwindSafe(|| exec_dispatch(check, &opts.verif_dir, &scenario))) {
                     Ok(o) => o,
                     Err(p) => {
                         let msg = if let Some(s) = p.downcast_ref::<&str>() {
@@ -425,17 +553,37 @@ pub fn run_check(check: &dyn Check, opts: &Options) -> i32 {
         let mut scenario = results[run].scenario.clone();
         let mut viol = v.clone();
         let mut hash = results[run].out.as_ref().map(|o| o.hash).unwrap_or(0);
+        let mut nondet = false;
+        if check.isolate() && check.nondeterminism_is_violation() {
+            if let Ok(again) = exec_dispatch(check, &opts.verif_dir, &scenario) {
+                if again.hash != hash {
+                    nondet = true;
+                    viol = Violation::new(
+                        NONDET_CLASS,
+                        0,
+                        format!(
+                            "the same scenario executed in two fresh processes gave different outcomes (hash {} vs {}); first outcome: {} - {}",
+                            hash_hex(hash), hash_hex(again.hash), v.class, v.detail
+                        ),
+                    );
+                    hash = 0;
+                }
+            }
+        }
         // greedy minimisation
         let tmin = Instant::now();
         let mut execs = 0;
         let mut shrunk_steps = 0;
         'outer: loop {
+            if nondet {
+                break;
+            }
             if tmin.elapsed().as_secs_f64() > 30.0 || execs > 400 {
                 break;
             }
             for cand in check.shrink(&scenario) {
                 execs += 1;
-                if let Ok(out) = check.execute(&cand) {
+                if let Ok(out) = exec_dispatch(check, &opts.verif_dir, &cand) {
                     if let Some(v2) = out.violations.iter().find(|x| &x.class == class) {
                         scenario = cand;
                         viol = v2.clone();
